@@ -902,6 +902,18 @@ func main() {
 					return
 				}
 				got := res.String()
+				if style == 0 {
+					// BuildExpr of the same string must yield an equivalent query (C13): build and evaluate again
+					if g2, err2, _ := build(s); err2 == nil {
+						if res2, err3 := xsel.Exec(ctx, g2, xsel.WithVariable("v", xsel.Number(21))); err3 != nil || res2.String() != got {
+							fails = append(fails, failure{Kind: "nondeterministic", Expr: s, Want: got, Got: fmt.Sprint(res2, err3)})
+							return
+						}
+					} else {
+						fails = append(fails, failure{Kind: "nondeterministic", Expr: s, Want: "accepted", Got: err2.Error()})
+						return
+					}
+				}
 				if got != want.str() {
 					fails = append(fails, failure{Kind: "structure", Expr: s, Want: want.str(), Got: got})
 					return
